@@ -145,6 +145,11 @@ class State:
     def event(self, kind, **kw):
         self.events.append((kind, kw))
 
+    def add(self, c):
+        """append a constraint to the path condition (invalidates the cached model)"""
+        self.pc.append(c)
+        self.model = None
+
 
 def is_z3(v):
     return isinstance(v, z3.ExprRef)
@@ -183,6 +188,7 @@ class Executor:
         self.typeid = {}
         self.keep = []
         self.assume_pc_hook = None
+        self.quots = {}
 
     # ------------------------------------------------------------------ memory
     def new_region(self, st, size, kind, name, lazy=False):
@@ -221,7 +227,22 @@ class Executor:
             if g.init is not None:
                 self.init_cells(st, r, 0, g.ty, g.init)
             r.const = False
+            if name in ('_ZSt4cerr', '_ZSt4cout', '_ZSt4clog'):
+                self.init_stream(st, r)
         return Ptr(rid, 0)
+
+    def init_stream(self, st, r):
+        """std::ostream object: vptr -> table whose vbase offset (at -24) is 8; ios_base at +8 with
+        width 0, precision 6, default flags; everything else lazily symbolic"""
+        vt = self.new_region(st, 64, 'global', r.name + '.vtable')
+        vt.cells[0] = (8, 8)
+        vt.lazy = True
+        r.cells[0] = (Ptr(vt.rid, 24), 8)
+        r.cells[8 + 8] = (6, 8)       # precision
+        r.cells[8 + 16] = (0, 8)      # width
+        r.cells[8 + 24] = (0x1002, 4)  # fmtflags: dec | skipws
+        r.cells[8 + 32] = (0, 4)      # exceptions mask / state
+        r.lazy = True
 
     def init_cells(self, st, r, off, ty, init):
         ty0 = self.m.resolve(ty)
@@ -671,8 +692,7 @@ class Executor:
             if not cond:
                 raise PathEnd('infeasible')
             return
-        st.pc.append(cond)
-        st.model = None
+        st.add(cond)
 
     def real_div(self, st, a, b):
         """REAL domain a/b with symbolic b: fork on b==0 (event), else fresh quotient"""
@@ -689,10 +709,11 @@ class Executor:
             qv = z3.Real('quot!%d' % self.fresh_cnt)
             self.keep.append((a, bz))
             self.leaf_memo[key] = qv
+            self.quots[qv.get_id()] = (a, bz)
             hit = qv
         cons = hit * bz == a
         if not any(c is cons or c.get_id() == cons.get_id() for c in st.pc[-50:]):
-            st.pc.append(cons)
+            st.add(cons)
         return hit
 
     div0_mode = 'nan'
